@@ -94,7 +94,7 @@ def run(d, n, props, tier="quick"):
         shutil.rmtree(scratch, ignore_errors=True)
         # bring the regenerated Lean data and the driver back to the unchanged tree
         sh(["/verif/build/extract", "-repo", "/repo", "-out", "/verif/lean/SC/Gen"])
-        sh([sys.executable, "/verif/tools/asmfacts.py", "/repo", "/verif/lean/SC/Gen/AsmFacts.lean"])
+        sh([sys.executable, "/verif/tools/asmfacts.py", "/repo", "/verif/lean/SC/Gen/AsmFacts.lean", "/verif/harness/cmd/asmstep"])
         sh(["lake", "build", "driver"], cwd="/verif/lean")
         for f in os.listdir(evbak):
             shutil.copy2(os.path.join(evbak, f), "/verif/evidence")
